@@ -337,6 +337,9 @@ def units(tier):
             us.append({"name": "cond W=3 T=2 notify_all cancel=%s" % cancel, "fn": cond_scn, "params": {"W": 3, "cancel": cancel, "second": "all", "T": 2, "J": 1}, "budget_s": B})
         for cancel in (0, 1, 2):
             us.append({"name": "event W=3 T=3 cancel=%d" % cancel, "fn": event_scn, "params": {"W": 3, "cancel": cancel, "T": 3}, "budget_s": B})
+        for cancel in (1, 2):
+            us.append({"name": "cond W=3 cancel=%d J=2" % cancel, "fn": cond_scn, "params": {"W": 3, "cancel": cancel, "T": 1, "J": 2}, "budget_s": B})
+        us.append({"name": "event created outside the loop W=3 cancel=1", "fn": event_scn, "params": {"W": 3, "cancel": 1, "adapter": True, "T": 2}, "budget_s": B})
         us.append({"name": "event W=3 cancel=1", "fn": event_scn, "params": {"W": 3, "cancel": 1}, "budget_s": B})
         us.append({"name": "cond W=2 cancel=0 eager", "fn": cond_scn, "params": {"W": 2, "cancel": 0, "eager": True}, "budget_s": B})
         us.append({"name": "event W=2 cancel=0 eager", "fn": event_scn, "params": {"W": 2, "cancel": 0, "eager": True}, "budget_s": B})
